@@ -36,13 +36,36 @@ def special_points(rng, d):
     return np.array(pts)
 
 
+def near_axis_points(rng, d, R=None):
+    """points close to, but not on, a coordinate axis / plane: one coordinate (either sign) dominates all the coordinates after
+    it by a factor 2^8 .. 2^14 (polar angle, or for the last pair the azimuth, within ~1e-2 .. 1e-5 of 0 or pi); the coordinates
+    before it are zero or generic. All values dyadic (exact for the model)."""
+    pts = []
+    for _ in range(4):
+        lead = int(rng.integers(0, d - 1))
+        e = int(rng.integers(8, 15))
+        p = np.zeros(d)
+        if lead > 0 and rng.integers(2):
+            p[:lead] = dyadic(rng, -4, 4, 3, size=lead)
+        p[lead] = float(rng.choice([-1.0, 1.0])) * float(dyadic(rng, 1, 4, 3))
+        tail = rng.integers(-3, 4, size=d - lead - 1).astype(np.float64)
+        if not tail.any():
+            tail[int(rng.integers(len(tail)))] = float(rng.choice([-1.0, 1.0]))
+        p[lead + 1:] = tail * 2.0 ** (-e)
+        pts.append(p)
+        if R is not None:
+            R.count("near-axis:lead-%s:2^-%d" % ("last-pair" if lead == d - 2 else "polar", e))
+    return np.array(pts)
+
+
 def run(R):
     import dreye
     from dreye.api.barycentric import barycentric_to_cartesian_transformer, barycentric_dim_reduction
     n = 120 if R.tier == "quick" else 2000
     R.rule = ("dimensions 2-12; barycentric: transformer matrix, forward/backward conversion (centred and not, L1 none/scalar/"
               "per-row, points inside and outside the simplex), chromatic reduction and its scale invariance, unit edges; "
-              "spherical: random points plus axis/plane points, the origin, negative coordinates, both directions and the "
+              "spherical: random points plus axis/plane points, the origin, negative coordinates, points close to but not on an axis/plane "
+              "(one coordinate of either sign 2^8..2^14 times larger than all later ones: angles within 1e-2..1e-5 of 0 or pi), both directions and the "
               "round trip; compared with the Float run of the Lean model (1e-10; angles 3e-8 because arccos is ill-conditioned "
               "at +-1) and with the property predicates. Non-trivial: dimension >=3 and a point set containing a special point.")
     cases = []
@@ -55,7 +78,7 @@ def run(R):
         c = dict(k=k, what=what, dim=d)
         R.count("what:" + what); R.count("dim:%d" % d)
         if what == "sph":
-            X = np.vstack([dyadic(rng, -4, 4, 3, size=(4, d)), special_points(rng, d)])
+            X = np.vstack([dyadic(rng, -4, 4, 3, size=(4, d)), special_points(rng, d), near_axis_points(R.rng(2, k), d, R)])
             c["X"] = X
             st, out = call(lambda: (dreye.cartesian_to_spherical(X.copy()), dreye.spherical_to_cartesian(dreye.cartesian_to_spherical(X.copy()))))
             for i, x in enumerate(X):
